@@ -93,10 +93,20 @@ func c13Worker(w *W) {
 	var holds atomic.Int64
 	var inHold atomic.Int32
 	var rotDone atomic.Int64
+	var stallArmed atomic.Bool
 	log.VerifPointFn = func(name string) {
 		y.fn(name)
 		if name == "roll.rotate.swapped" {
 			rotDone.Add(1)
+		}
+		if name == "roll.write.loaded" && mode == "stalledwriter" {
+			// one writer is stalled for more than two whole intervals between loading the current file and
+			// writing to it, while the other keeps writing (so two rotations pass): its line must still land
+			if stallArmed.CompareAndSwap(true, false) {
+				holds.Add(1)
+				time.Sleep(2*interval + 300*time.Millisecond)
+			}
+			return
 		}
 		if name == "roll.write.loaded" && mode != "sequential" {
 			now := time.Now()
@@ -151,6 +161,12 @@ func c13Worker(w *W) {
 	if err := ap.Start(); err != nil {
 		w.Violate("C13:start-failed", "Start failed: "+err.Error(), cs)
 		return
+	}
+	if mode == "stalledwriter" {
+		go func() { // arm the stall a little after the start and again two intervals later
+			time.Sleep(150 * time.Millisecond)
+			stallArmed.Store(true)
+		}()
 	}
 	var apMu sync.RWMutex // guards replacement of ap in the stop/start mode (writers take RLock around Write)
 	stopAt := time.Now().Truncate(interval).Add(time.Duration(boundaries)*interval + interval/2)
@@ -378,6 +394,7 @@ func init() {
 			add("stopstart", 2, 1, "plain", nb)
 			add("preseeded", 4, 1, "plain", nb)
 			add("onebyte", 4, 2, "plain", 2)
+			add("stalledwriter", 2, 1, "plain", 4)
 			if !d.Quick() {
 				add("continuous", 16, 1, "plain", 10)
 				add("continuous", 2, 2, "plain", 4)
